@@ -9,8 +9,8 @@ RouteTables == AllTables
 Unambiguous(t) == t["ep-%d"] = None \/ t["ep-%s"] = None
 OpenTablesQ == {t \in AllTables : /\ Unambiguous(t) /\ t[""] = R("x", "m", <<>>) /\ t["lp-%d"] # None
                                    /\ t["g"] # R("y", "gdb", <<>>) /\ t["ep-%s"] # R("x", "e-", <<>>)}
-OpenTablesT == {t \in AllTables : Unambiguous(t) /\ t["ep-%s"] # R("x", "e-", <<>>)}
+OpenTablesT == {t \in AllTables : Unambiguous(t) /\ t["lp-%d"] # None /\ t["ep-%s"] # R("x", "e-", <<>>)}
 OpenReqsQ == {<<S("g")>>, <<S("g"), S("t")>>, <<S("g"), S("u"), S("t")>>, <<S("g"), S("t"), S("u")>>, <<S("h"), S("t")>>,
               <<A("ep", "5")>>, <<A("ep", "5"), S("t")>>, <<A("lp", "5")>>, <<A("ep", "x")>>}
-OpenReqsT == OpenReqsQ \cup {<<S("h")>>, <<S("g"), S("u")>>, <<A("lp", "5"), S("u")>>, <<A("ep", "x"), S("t")>>, <<A("lp", "7")>>}
+OpenReqsT == OpenReqsQ \cup {<<S("h")>>, <<A("lp", "5"), S("u")>>}
 ====
